@@ -14,17 +14,30 @@ Clause → theorem   (model: `Model/Intersect.lean`; carrier: any ordered field)
   non-parallel segments that meet are reported            segInter_complete_general_position
   … and meet in one point only                            crossing_unique
   exactly the crossing points (general position)          intersect_exact_general_position,
-                                                          intersect_length
+                                                          intersect_length (number of reported points = number
+                                                          of crossing segment pairs, under GeneralPosition;
+                                                          intersect_length_unfold is the mere unfolding)
   parallel pairs are never reported                       segInter_parallel_none
   on the contour polygon, at the requested abscissa       design_on_contour
   largest ordinate among all intersections there          design_top_ordinate (reported intersections),
                                                           design_top_ordinate_geometric (every point of a
                                                           non-vertical edge at that abscissa),
                                                           design_conditions_top_ordinate (end to end)
-  any number of crossings (section 4 #11)                 design_any_number_of_crossings,
+  any number of crossings (section 4 #11)                 design_any_number_of_crossings (hypothesis: at least
+                                                          one intersection), designStep_isSome_iff,
+                                                          design_any_number_of_crossings_count (corollary);
+                                                          COUNTER-MODEL theorems (about `designStepOld`, the code
+                                                          before the repair, which the driver never runs):
                                                           design_old_agrees, assert_le_two_counterexample
-  probe segment covers the contour (found here)           probe_covers, probeOld_counterexample,
-                                                          probeOld_design_counterexample
+  probe segment covers the contour (found here)           probe_covers, designSetup_probeCovers;
+                                                          COUNTER-MODEL (`probeLimitsOld`, not run by the driver):
+                                                          probeOld_counterexample, probeOld_design_counterexample
+  the polygon worked on = contour closed with vertex 0    designSetup_closed (any carrier, incl. the Float run),
+                                                          closePoly_zip, closePoly_map
+  WHAT THE DRIVER EXECUTES (designCore at ℚ on the        design_core_top_ordinate_covered,
+  doubles of the Float setup), only hypothesis the        design_core_omission_covered (iff),
+  decidable flag `probeCovers` the driver prints and      design_core_reports_crossing_covered
+  the harness requires on every non-flat contour
   non-crossing abscissae are omitted, crossing ones kept  design_conditions_omission (end to end, an iff: probe
                                                           ends are the ones computed from the contour),
                                                           design_conditions_reports_crossing (end to end),
@@ -38,8 +51,17 @@ Clause → theorem   (model: `Model/Intersect.lean`; carrier: any ordered field)
                                                           design_default_span (count n+2 only)
   swap_axis = exchanging the coordinates                  design_swap_equiv
 
-Hypotheses of the end-to-end theorems (`design_conditions_top_ordinate`, `design_conditions_omission`,
-`design_conditions_reports_crossing`): `0 ≤ tenth` (the code's 0.1) and `hflat`: the contour has two
+The end-to-end theorems (`design_conditions_top_ordinate`, `design_conditions_omission`,
+`design_conditions_reports_crossing`, `design_default_span_all`) assume `designSetup … = some S` over an
+ordered FIELD: they describe the algorithm in exact arithmetic. The driver runs `designSetup` at Float only
+and `designCore` at ℚ on the resulting doubles; for that executed object the applicable theorems are the
+`design_core_*_covered` ones (hypothesis `probeCovers closed ylo yhi = true`, printed by the driver for the
+same values, required by the harness) together with `designSetup_closed` (the Float `closed` is the closed
+contour). `designSetup_probeCovers` shows that over a field the flag always holds, which is how the
+end-to-end theorems are obtained from the `…_covered` ones. The abscissae of the Float run (`linspaceEnd`
+in doubles) are compared with numpy bit for bit; `design_default_span_all` is about exact arithmetic only.
+
+Hypotheses of the end-to-end theorems: `0 ≤ tenth` (the code's 0.1) and `hflat`: the contour has two
 vertices with different ordinates. A contour whose vertices all share one ordinate has a probe segment
 of length zero, every system is singular and nothing is reported; it is not a closed contour with an
 interior, the harness counts such inputs (`design:flat_polygon_out_of_scope`) and evaluates no clause
@@ -233,9 +255,10 @@ theorem intersect_exact_general_position (P1 P2 : List (α × α)) (hgp : Genera
       ⟨s1, h1, s2, h2, segInter_complete_general_position s1 s2 p hdet o1 o2⟩
 
 omit [IsStrictOrderedRing α] in
-/-- the number of reported points is the number of segment pairs for which `segInter` reports one
-(row-major order, one point per pair) -/
-theorem intersect_length (P1 P2 : List (α × α)) :
+/-- (unfolding only: `length_flatMap` + `length_filterMap_eq_countP`, true for any function in place
+of `segInter`) the number of reported points is the number of segment pairs for which `segInter`
+reports one (row-major order, one point per pair).  The geometric statement is `intersect_length`. -/
+theorem intersect_length_unfold (P1 P2 : List (α × α)) :
     (intersect P1 P2).length =
       ((segs P1).map fun s1 => (segs P2).countP fun s2 => (segInter s1 s2).isSome).sum := by
   unfold intersect
@@ -257,6 +280,21 @@ theorem segInter_isSome_iff (s1 s2 : Seg α)
     have hdet : segDet s1 s2 ≠ 0 := fun h0 => hgp h0 ⟨p, o1, o2⟩
     rw [segInter_complete_general_position s1 s2 p hdet o1 o2]
     rfl
+
+open Classical in
+/-- **intersect_length**: for polylines in general position the number of reported points is the
+number of *crossing segment pairs*: pairs `(s1, s2)` (row-major) that have a common point. -/
+theorem intersect_length (P1 P2 : List (α × α)) (hgp : GeneralPosition P1 P2) :
+    (intersect P1 P2).length =
+      ((segs P1).map fun s1 => (segs P2).countP fun s2 =>
+        decide (∃ p, OnSeg s1 p ∧ OnSeg s2 p)).sum := by
+  rw [intersect_length_unfold]
+  congr 1
+  apply List.map_congr_left
+  intro s1 h1
+  apply List.countP_congr
+  intro s2 h2
+  rw [segInter_isSome_iff s1 s2 (hgp s1 h1 s2 h2), decide_eq_true_eq]
 
 /-! ### `np.max` / `np.min` -/
 
@@ -483,19 +521,20 @@ theorem design_top_ordinate_geometric (closed : List (α × α)) (ylo yhi : α) 
   obtain ⟨_, htop⟩ := design_top_ordinate closed ylo yhi steps q h
   exact htop (q.1, y') (crossing_mem_intersect closed ylo yhi q.1 y' hlt s hs hnv hon h1 h2)
 
-/-- **design_any_number_of_crossings**: whatever the number `n ≥ 1` of intersections of the probe
-with the closed polygon (star-shaped contours, probe through a vertex), the abscissa is kept and
-carries the maximum of their ordinates. -/
-theorem design_any_number_of_crossings (closed : List (α × α)) (ylo yhi x2 : α) (n : Nat)
-    (hn : (intersect closed [(x2, ylo), (x2, yhi)]).length = n + 1) :
+/-- **design_any_number_of_crossings**: as soon as the probe has at least one intersection with the
+closed polygon - whatever their number (star-shaped contours, probe through a vertex) - the abscissa
+is kept and carries the maximum of their ordinates.  (The hypothesis is `≠ []`; no bound on the
+number of intersections occurs anywhere, which is the content of section 4 #11; the version indexed
+by the count `n + 1` is the corollary `design_any_number_of_crossings_count`.) -/
+theorem design_any_number_of_crossings (closed : List (α × α)) (ylo yhi x2 : α)
+    (hn : intersect closed [(x2, ylo), (x2, yhi)] ≠ []) :
     ∃ y, designStep closed ylo yhi x2 = some (x2, y) ∧
       (∃ p ∈ intersect closed [(x2, ylo), (x2, yhi)], p.2 = y) ∧
       ∀ p ∈ intersect closed [(x2, ylo), (x2, yhi)], p.2 ≤ y := by
   cases hd : designStep closed ylo yhi x2 with
   | none =>
     rw [designStep_eq_none] at hd
-    rw [hd] at hn
-    simp at hn
+    exact absurd hd hn
   | some q =>
     obtain ⟨h1, h2, h3⟩ := (designStep_eq_some closed ylo yhi x2 q).mp hd
     refine ⟨q.2, ?_, h2, h3⟩
@@ -503,6 +542,24 @@ theorem design_any_number_of_crossings (closed : List (α × α)) (ylo yhi x2 : 
     ext
     · exact h1
     · rfl
+
+/-- corollary of `design_any_number_of_crossings`, indexed by the number `n + 1` of intersections
+(`n` occurs only in the hypothesis: the statement is the same for every `n`) -/
+theorem design_any_number_of_crossings_count (closed : List (α × α)) (ylo yhi x2 : α) (n : Nat)
+    (hn : (intersect closed [(x2, ylo), (x2, yhi)]).length = n + 1) :
+    ∃ y, designStep closed ylo yhi x2 = some (x2, y) ∧
+      (∃ p ∈ intersect closed [(x2, ylo), (x2, yhi)], p.2 = y) ∧
+      ∀ p ∈ intersect closed [(x2, ylo), (x2, yhi)], p.2 ≤ y := by
+  apply design_any_number_of_crossings
+  intro h0
+  rw [h0] at hn
+  simp at hn
+
+/-- the abscissa is kept iff the probe has at least one reported intersection -/
+theorem designStep_isSome_iff (closed : List (α × α)) (ylo yhi x2 : α) :
+    (designStep closed ylo yhi x2).isSome = true ↔ intersect closed [(x2, ylo), (x2, yhi)] ≠ [] := by
+  rw [Ne, ← designStep_eq_none]
+  cases designStep closed ylo yhi x2 <;> simp
 
 omit [IsStrictOrderedRing α] in
 /-- the repair is conservative: where the old code (with `assert len(x) <= 2`) returned, the
@@ -700,6 +757,45 @@ theorem designSetup_spec (tenth small : α) (ofNat : Nat → α) (coords : List 
       exact ⟨lo, hi, hdl, hpl, rfl, rfl⟩
     · exact absurd h (by simp)
 
+theorem closePoly_zip {β γ δ : Type} (f : β → γ) (g : β → δ) (c : List β) :
+    (closePoly (c.map f)).zip (closePoly (c.map g)) = closePoly (c.map fun p => (f p, g p)) := by
+  cases c with
+  | nil => rfl
+  | cons p ps =>
+    simp only [List.map_cons, closePoly]
+    rw [List.zip_append (by simp)]
+    simp [List.zip_map']
+
+theorem closePoly_map {β γ : Type} (f : β → γ) (c : List β) :
+    closePoly (c.map f) = (closePoly c).map f := by
+  cases c <;> simp [closePoly]
+
+/-- **designSetup_closed**: the polygon the loop works on IS the contour's vertex list closed with
+its first vertex (`np.append(c, c[0])`), with the two columns exchanged for `swap_axis`.  No
+arithmetic is involved, so this is stated for ANY carrier with the model's operations - in
+particular for the `Float` run of `designSetup` in the driver, whose `closed` (cast exactly to `ℚ`,
+`closePoly_map`) is what `designCore` and the `…_covered` theorems are about. -/
+theorem designSetup_closed {β : Type} [LE β] [LT β] [DecidableLE β] [DecidableLT β]
+    [Add β] [Sub β] [Mul β] [Div β] [OfNat β 0] [OfNat β 1]
+    (tenth small : β) (ofNat : Nat → β) (coords : List (β × β))
+    (spec : StepSpec β) (swap : Bool) (S : DesignSetup β)
+    (h : designSetup tenth small ofNat coords spec swap = some S) :
+    S.closed = closePoly (coords.map fun p => if swap then (p.2, p.1) else p) := by
+  have hz : S.closed = (closePoly (coords.map (if swap then Prod.snd else Prod.fst))).zip
+        (closePoly (coords.map (if swap then Prod.fst else Prod.snd))) := by
+    unfold designSetup at h
+    simp only at h
+    split at h
+    · have hS := Option.some.inj h
+      subst hS
+      rfl
+    · exact absurd h (by simp)
+  rw [hz, closePoly_zip]
+  congr 1
+  apply List.map_congr_left
+  intro p _
+  cases swap <;> rfl
+
 theorem designConditions_eq (tenth small : α) (ofNat : Nat → α) (coords : List (α × α))
     (spec : StepSpec α) (swap : Bool) (res : List (α × α)) :
     designConditions tenth small ofNat coords spec swap = some res ↔
@@ -775,6 +871,84 @@ theorem design_on_nonvertical_edge (closed : List (α × α)) (ylo yhi : α) (st
   rw [segDet_probe, heq]
   ring
 
+/-! ### what the driver executes: `designCore` under the decidable side condition `probeCovers`
+
+The driver evaluates `designCore closed ylo yhi steps` at carrier `ℚ` on the doubles produced by the
+Float run of `designSetup` (exactly cast), prints `probeCovers closed ylo yhi` for the same values,
+and the harness requires that flag for every contour that is not flat.  The three theorems below
+have `probeCovers … = true` as their only hypothesis, so they apply verbatim to the executed object
+(no `designSetup … = some S` over the field, no `0 ≤ tenth`, no `hflat`). -/
+
+omit [Field α] [IsStrictOrderedRing α] in
+theorem probeCovers_iff (closed : List (α × α)) (ylo yhi : α) :
+    probeCovers closed ylo yhi = true ↔ ylo < yhi ∧ ∀ v ∈ closed, ylo ≤ v.2 ∧ v.2 ≤ yhi := by
+  unfold probeCovers
+  simp [Bool.and_eq_true, List.all_eq_true]
+
+/-- **design_core_top_ordinate_covered**: under `probeCovers`, every returned design condition `q`
+has a requested abscissa, lies on a non-vertical edge of the closed polygon, and no point of any
+non-vertical edge at that abscissa lies above it (any number of crossings). -/
+theorem design_core_top_ordinate_covered (closed : List (α × α)) (ylo yhi : α) (steps : List α)
+    (hc : probeCovers closed ylo yhi = true) (q : α × α) (hq : q ∈ designCore closed ylo yhi steps) :
+    q.1 ∈ steps ∧ (∃ s ∈ segs closed, s.px ≠ s.qx ∧ OnSeg s q) ∧
+    ∀ s ∈ segs closed, s.px ≠ s.qx → ∀ y', OnSeg s (q.1, y') → y' ≤ q.2 := by
+  obtain ⟨hlt, hb⟩ := (probeCovers_iff closed ylo yhi).mp hc
+  refine ⟨(design_on_contour closed ylo yhi steps q hq).1,
+    design_on_nonvertical_edge closed ylo yhi steps q hq, ?_⟩
+  intro s hs hnv y' hon
+  obtain ⟨b1, b2⟩ := onSeg_snd_bounds closed ylo yhi hb s hs (q.1, y') hon
+  exact design_top_ordinate_geometric closed ylo yhi steps q hq hlt s hs hnv y' hon b1 b2
+
+/-- **design_core_omission_covered**: under `probeCovers`, a requested abscissa is absent from the
+result **iff** no non-vertical edge of the closed polygon has a point there. -/
+theorem design_core_omission_covered (closed : List (α × α)) (ylo yhi : α) (steps : List α)
+    (hc : probeCovers closed ylo yhi = true) (x2 : α) (hx : x2 ∈ steps) :
+    (∀ y, (x2, y) ∉ designCore closed ylo yhi steps) ↔
+      ∀ s ∈ segs closed, s.px ≠ s.qx → ∀ y', ¬ OnSeg s (x2, y') := by
+  obtain ⟨hlt, hb⟩ := (probeCovers_iff closed ylo yhi).mp hc
+  constructor
+  · intro hom s hs hnv y' hon
+    obtain ⟨b1, b2⟩ := onSeg_snd_bounds closed ylo yhi hb s hs (x2, y') hon
+    exact design_omits_noncrossing closed ylo yhi steps x2 hx hlt hom s hs hnv y' b1 b2 hon
+  · intro hno y hy
+    obtain ⟨s, hs, hnv, hon⟩ := design_on_nonvertical_edge closed ylo yhi steps (x2, y) hy
+    exact hno s hs hnv y hon
+
+/-- **design_core_reports_crossing_covered**: under `probeCovers`, a requested abscissa at which
+some non-vertical edge has a point is kept. -/
+theorem design_core_reports_crossing_covered (closed : List (α × α)) (ylo yhi : α) (steps : List α)
+    (hc : probeCovers closed ylo yhi = true) (x2 : α) (hx : x2 ∈ steps)
+    (s : Seg α) (hs : s ∈ segs closed) (hnv : s.px ≠ s.qx) (y' : α) (hon : OnSeg s (x2, y')) :
+    ∃ y, (x2, y) ∈ designCore closed ylo yhi steps := by
+  by_contra hne
+  have hom : ∀ y, (x2, y) ∉ designCore closed ylo yhi steps := fun y hy => hne ⟨y, hy⟩
+  exact (design_core_omission_covered closed ylo yhi steps hc x2 hx).mp hom s hs hnv y' hon
+
+/-- **designSetup_probeCovers**: over an ordered field, `designSetup` always produces a covering
+probe when the margin factor is non-negative and two ordinates differ - the link between the
+`…_covered` theorems and the end-to-end ones (`design_conditions_*`). -/
+theorem designSetup_probeCovers (tenth small : α) (ofNat : Nat → α) (coords : List (α × α))
+    (spec : StepSpec α) (swap : Bool) (S : DesignSetup α)
+    (h : designSetup tenth small ofNat coords spec swap = some S) (ht : 0 ≤ tenth)
+    (hflat : ∃ a ∈ S.closed, ∃ b ∈ S.closed, a.2 < b.2) :
+    probeCovers S.closed S.ylo S.yhi = true := by
+  obtain ⟨lo, hi, _, hpl, hcl, _⟩ := designSetup_spec tenth small ofNat coords spec swap S h
+  have hsnd : S.closed.map Prod.snd = closePoly (coords.map (if swap then Prod.fst else Prod.snd)) := by
+    rw [hcl]
+    apply List.map_snd_zip
+    exact le_of_eq (closePoly_length _ _ coords).symm
+  obtain ⟨hcov, hnd⟩ := probe_covers tenth _ S.ylo S.yhi hpl ht
+  rw [probeCovers_iff]
+  constructor
+  · apply hnd
+    obtain ⟨a, ha, b, hb', hab⟩ := hflat
+    rw [← hsnd]
+    exact ⟨a.2, List.mem_map.mpr ⟨a, ha, rfl⟩, b.2, List.mem_map.mpr ⟨b, hb', rfl⟩, hab⟩
+  · intro v hv
+    apply hcov
+    rw [← hsnd]
+    exact List.mem_map.mpr ⟨v, hv, rfl⟩
+
 /-- **design_conditions_omission** (end to end, the omission clause composed with `probe_covers`
 exactly as `design_conditions_top_ordinate` does for the top-ordinate clause): for a contour whose
 ordinates are not all equal and a non-negative margin factor, a requested abscissa `x2` is absent
@@ -786,30 +960,9 @@ theorem design_conditions_omission (tenth small : α) (ofNat : Nat → α) (coor
     (hflat : ∃ a ∈ S.closed, ∃ b ∈ S.closed, a.2 < b.2)
     (x2 : α) (hx : x2 ∈ S.steps) :
     (∀ y, (x2, y) ∉ designCore S.closed S.ylo S.yhi S.steps) ↔
-      ∀ s ∈ segs S.closed, s.px ≠ s.qx → ∀ y', ¬ OnSeg s (x2, y') := by
-  obtain ⟨lo, hi, _, hpl, hcl, _⟩ := designSetup_spec tenth small ofNat coords spec swap S h
-  have hsnd : S.closed.map Prod.snd = closePoly (coords.map (if swap then Prod.fst else Prod.snd)) := by
-    rw [hcl]
-    apply List.map_snd_zip
-    exact le_of_eq (closePoly_length _ _ coords).symm
-  obtain ⟨hcov, hnd⟩ := probe_covers tenth _ S.ylo S.yhi hpl ht
-  have hb : ∀ v ∈ S.closed, S.ylo ≤ v.2 ∧ v.2 ≤ S.yhi := by
-    intro v hv
-    apply hcov
-    rw [← hsnd]
-    exact List.mem_map.mpr ⟨v, hv, rfl⟩
-  have hlt : S.ylo < S.yhi := by
-    apply hnd
-    obtain ⟨a, ha, b, hb', hab⟩ := hflat
-    rw [← hsnd]
-    exact ⟨a.2, List.mem_map.mpr ⟨a, ha, rfl⟩, b.2, List.mem_map.mpr ⟨b, hb', rfl⟩, hab⟩
-  constructor
-  · intro hom s hs hnv y' hon
-    obtain ⟨b1, b2⟩ := onSeg_snd_bounds S.closed S.ylo S.yhi hb s hs (x2, y') hon
-    exact design_omits_noncrossing S.closed S.ylo S.yhi S.steps x2 hx hlt hom s hs hnv y' b1 b2 hon
-  · intro hno y hy
-    obtain ⟨s, hs, hnv, hon⟩ := design_on_nonvertical_edge S.closed S.ylo S.yhi S.steps (x2, y) hy
-    exact hno s hs hnv y hon
+      ∀ s ∈ segs S.closed, s.px ≠ s.qx → ∀ y', ¬ OnSeg s (x2, y') :=
+  design_core_omission_covered S.closed S.ylo S.yhi S.steps
+    (designSetup_probeCovers tenth small ofNat coords spec swap S h ht hflat) x2 hx
 
 /-- **design_conditions_reports_crossing** (end to end): a requested abscissa at which some
 non-vertical edge of the closed polygon has a point is kept. -/
@@ -1044,6 +1197,11 @@ example : GeneralPosition ([(0, 0), (2, 2), (4, 0)] : List (ℚ × ℚ)) [(0, 1)
   intro s1 h1 s2 h2 hdet
   simp only [segs, List.mem_cons, List.not_mem_nil, or_false] at h1 h2
   rcases h1 with rfl | rfl <;> subst h2 <;> norm_num [segDet] at hdet
+
+/-- the hypothesis of the `design_core_*_covered` theorems on the triangle (the flag the driver prints) -/
+example : probeCovers tri (-1/10) (11/10) = true ∧ probeCovers tri (1/10) (11/10) = false ∧
+    probeCovers tri (0 : ℚ) 0 = false := by
+  decide +kernel
 
 /-- end to end on the triangle: abscissa through the apex (three intersections), an ordinary one,
 and one outside (omitted); `swap_axis`; default abscissae -/
